@@ -61,35 +61,51 @@ func checkC20(c *Check) {
 					c.Fail("C20.R1", "skip-verify-write/"+fnKey(fn), P.Pos(instrPos(st)), "InsecureSkipVerify is written in "+fnKey(fn)+", outside the audited pool loader")
 					continue
 				}
-				fs := FactsOf(fn).At(st)
-				noCA, noFile, present := false, false, false
-				for cond, pol := range fs {
-					bo, isB := cond.(*ssa.BinOp)
-					if !isB {
+				// every alternative of the written value is the constant false (verification stays on) or BoolStrValue of the
+				// setting, selected under: no inline CA, no CA file, setting present (facts of the edge that selects it — the
+				// flag may be computed in a branch and written after the join)
+				noCA, noFile, present, valOK := true, true, true, true
+				nAlt := 0
+				for _, alt := range phiAlternatives(fn, st.Val, st) {
+					v := resolveCell(stripConv(alt.V))
+					if bv, isK := constBool(v); isK && !bv {
 						continue
 					}
-					gc, _, isC := asCall(bo.X)
-					if !isC {
-						continue
-					}
-					if s, isS := constString(bo.Y); isS && s == "" {
-						empty := (bo.Op == token.EQL) == pol
-						if isCallTo(gc, gCA) && empty {
-							noCA = true
+					nAlt++
+					fs := unionFacts(FactsOf(fn).At(st), alt.Facts)
+					aCA, aFile, aPresent := false, false, false
+					for cond, pol := range fs {
+						bo, isB := cond.(*ssa.BinOp)
+						if !isB {
+							continue
 						}
-						if isCallTo(gc, gFile) && empty {
-							noFile = true
+						gc, _, isC := asCall(resolveCell(stripConv(bo.X)))
+						if !isC {
+							continue
+						}
+						if s, isS := constString(bo.Y); isS && s == "" {
+							empty := (bo.Op == token.EQL) == pol
+							if isCallTo(gc, gCA) && empty {
+								aCA = true
+							}
+							if isCallTo(gc, gFile) && empty {
+								aFile = true
+							}
+						}
+						if isNilConst(bo.Y) && isCallTo(gc, gSkip) && ((bo.Op == token.NEQ && pol) || (bo.Op == token.EQL && !pol)) {
+							aPresent = true
 						}
 					}
-					if isNilConst(bo.Y) && isCallTo(gc, gSkip) && ((bo.Op == token.NEQ && pol) || (bo.Op == token.EQL && !pol)) {
-						present = true
+					vc, _, isC := asCall(v)
+					aVal := isC && vc.Common().StaticCallee() == bsv
+					if aVal {
+						g, _, isG := asCall(resolveCell(stripConv(vc.Common().Args[0])))
+						aVal = isG && isCallTo(g, gSkip)
 					}
+					noCA, noFile, present, valOK = noCA && aCA, noFile && aFile, present && aPresent, valOK && aVal
 				}
-				vc, _, isC := asCall(resolveCell(stripConv(st.Val)))
-				valOK := isC && vc.Common().StaticCallee() == bsv
-				if valOK {
-					g, _, isG := asCall(vc.Common().Args[0])
-					valOK = isG && isCallTo(g, gSkip)
+				if nAlt == 0 {
+					valOK = false
 				}
 				c.Obl(noCA && noFile && present && valOK, "C20.R1", "skip-verify-write/guard", P.Pos(instrPos(st)),
 					"InsecureSkipVerify = BoolStrValue(skip setting) only when neither an inline CA nor a CA file is configured",
@@ -258,6 +274,53 @@ func checkC20(c *Check) {
 					if lk, isL := ex.Tuple.(*ssa.Lookup); isL {
 						if cl, _ := classOfMap(lk.X); cl == "internal.tlsConfigPool.configs[]" && sameVal(lk.Index, upd.Params[1]) {
 							okUpd = true
+						}
+					}
+				}
+				// the lookup made by a helper of the pool (lock, look up, unlock): its key parameter is bound to the id
+				if hc, ri, isC := asCall(base); isC {
+					if h := hc.Common().StaticCallee(); h != nil && h.Blocks != nil && h.Pkg == upd.Pkg {
+						for _, hb := range h.Blocks {
+							for _, hi := range hb.Instrs {
+								lk, isL := hi.(*ssa.Lookup)
+								if !isL {
+									continue
+								}
+								if cl, _ := classOfMap(lk.X); cl != "internal.tlsConfigPool.configs[]" {
+									continue
+								}
+								kp, isP := resolveCell(stripConv(lk.Index)).(*ssa.Parameter)
+								if !isP {
+									continue
+								}
+								bound := false
+								for k, q := range h.Params {
+									if q == kp && k < len(hc.Common().Args) && sameVal(hc.Common().Args[k], upd.Params[1]) {
+										bound = true
+									}
+								}
+								returned := false
+								for _, r := range returnsOf(h) {
+									idx := ri
+									if idx < 0 {
+										idx = 0
+									}
+									if idx < len(r.Results) {
+										for _, l := range Leaves(r.Results[idx], leafOpts{noConcat: true}) {
+											l = resolveCell(stripConv(l))
+											if l == ssa.Value(lk) {
+												returned = true
+											}
+											if e2, isE2 := l.(*ssa.Extract); isE2 && e2.Tuple == ssa.Value(lk) {
+												returned = true
+											}
+										}
+									}
+								}
+								if bound && returned {
+									okUpd = true
+								}
+							}
 						}
 					}
 				}
